@@ -100,4 +100,36 @@ impl IoUring {
             self.completion_queue.ring_mask,
         )
     }
+
+    /// Where the ring pointers derived by set-up lie, as byte offsets from the start of their mapping:
+    /// `[sq head, sq tail, sq flags, sq dropped, sq array, cq head, cq tail, cq overflow, cq cqes, cq flags]`
+    /// (`usize::MAX` for an absent cq flags pointer)
+    #[must_use]
+    pub fn verif_ring_pointer_offsets(&self) -> [usize; 10] {
+        let sq = &self.submission_queue;
+        let cq = &self.completion_queue;
+        let s = |p: NonNull<AtomicU32>| (p.as_ptr() as usize).wrapping_sub(sq.ring_ptr);
+        let c = |p: NonNull<AtomicU32>| (p.as_ptr() as usize).wrapping_sub(cq.ring_ptr);
+        [
+            s(sq.kernel_head),
+            s(sq.kernel_tail),
+            s(sq.kernel_flags),
+            s(sq.kernel_dropped),
+            s(sq.kernel_array),
+            c(cq.kernel_head),
+            c(cq.kernel_tail),
+            c(cq.kernel_overflow),
+            (cq.entries.as_ptr() as usize).wrapping_sub(cq.ring_ptr),
+            cq.kernel_flags.map_or(usize::MAX, c),
+        ]
+    }
+
+    /// Entry `i` of the submission index array (which submission entry the kernel takes for ring position `i`)
+    /// # Safety
+    /// `i` must be below the number of submission ring entries
+    #[must_use]
+    pub unsafe fn verif_sq_index_array(&self, i: u32) -> u32 {
+        (*self.submission_queue.kernel_array.as_ptr().add(i as usize))
+            .load(core::sync::atomic::Ordering::Acquire)
+    }
 }
